@@ -383,7 +383,7 @@ class H2Peer:
             elif k == "push":
                 log("wire", kind="push", app=rid, promised=ev["promised"],
                     headers=[[n, v, n.lower()] for n, v in ev["headers"]], ctl=ev["ctl"])
-                self.rid_of[ev["promised"]] = "push-of-" + rid
+                self.rid_of[ev["promised"]] = "push%d-of-%s" % (ev["promised"], rid)
             elif k == "error":
                 log("wire", kind="error", app=rid, why=ev["why"])
             elif k in ("wupd", "ping", "priority", "other"):
